@@ -174,61 +174,83 @@ def cause(history, group, table):
     return "order"
 
 
-def judge(history, res, canon):
+def judge_all(history, res, canon):
+    """Every disagreement of the history, one (bucket, message) per root-cause label."""
+    out = []
     if "error" in res:
         raise RuntimeError("history runner failed: %s" % res["error"])
     if "final_error" in res:
-        return ("c10:final:%s" % res["final_error"].split(":")[0],
-                "completing the private tables failed: %s" % res["final_error"])
+        return [("c10:final:%s" % res["final_error"].split(":")[0],
+                 "completing the private tables failed: %s" % res["final_error"])]
     mutated = mutated_tables(history)
     for ev, o in zip(history, res["obs"]):
         tbl = ev_table(ev)
         if ev[0] == "pickle":
             if o != ["ok", True]:
-                return ("c10:pickle:%s" % ev[1], "pickle round trip of %s of %s gave %r" % (ev[1], tbl, o))
+                out.append(("c10:pickle:%s" % ev[1], "pickle round trip of %s of %s gave %r" % (ev[1], tbl, o)))
         elif ev[0] == "formula":
             if o != ["ok", [tbl]]:
-                return ("c10:formula-table:%s" % ("fasta" if ":" in ev[1] else "grammar"),
-                        "formula(%r, table=%s) contains atoms of tables %r" % (ev[1], tbl, o))
+                out.append(("c10:formula-table:%s" % ("fasta" if ":" in ev[1] else "grammar"),
+                            "formula(%r, table=%s) contains atoms of tables %r" % (ev[1], tbl, o)))
         elif ev[0] in ("create", "init", "assign", "mutate"):
             if o[0] != "ok":
-                return ("c10:%s-raises:%s:%s" % (ev[0], ev[1], o[1]), "%s raised %s" % (H.ev_key(ev), o[1:]))
+                out.append(("c10:%s-raises:%s:%s" % (ev[0], ev[1], o[1]), "%s raised %s" % (H.ev_key(ev), o[1:])))
         elif tbl == "public":
             want = canon["obs"].get(H.ev_key(ev))
             if want is not None and o != want and not (o[0] == "exc" and want[0] == "exc" and o[1] == want[1]):
                 g = ev_group(ev) or "none"
-                return ("c10:public:%s:%s" % (g, cause(history, g, "public")),
-                        "public event %s observed %s, canonical %s" % (H.ev_key(ev), c09._short(o), c09._short(want)))
+                out.append(("c10:public:%s:%s" % (g, cause(history, g, "public")),
+                            "public event %s observed %s, canonical %s" % (H.ev_key(ev), c09._short(o), c09._short(want))))
     for tbl in sorted(res["digest"]):
         if tbl in mutated:
             continue
         bad = [k for k in H.diff_digest(canon["digest"], res["digest"][tbl]) if k in res["digest"][tbl]]
-        if bad:
-            g = c09.DIGEST_GROUP[bad[0]]
-            return ("c10:%s:%s:%s" % ("public" if tbl == "public" else "private", g, cause(history, g, tbl)),
-                    "table %s serves different values for %s %s" % (tbl, ", ".join(bad), "; ".join(
-                        "%s=%s" % (k, res["digest"][tbl][k]) for k in bad if str(res["digest"][tbl][k]).startswith("exc"))))
+        for g in sorted(set(c09.DIGEST_GROUP[k] for k in bad)):
+            mine = [k for k in bad if c09.DIGEST_GROUP[k] == g]
+            out.append(("c10:%s:%s:%s" % ("public" if tbl == "public" else "private", g, cause(history, g, tbl)),
+                        "table %s serves different values for %s %s" % (tbl, ", ".join(mine), "; ".join(
+                            "%s=%s" % (k, res["digest"][tbl][k]) for k in mine
+                            if str(res["digest"][tbl][k]).startswith("exc")))))
     for a, b, label in res.get("shared", []):
-        return ("c10:shared-object:%s" % label, "tables %s and %s share a mutable object served as %s" % (a, b, label))
-    return None
+        out.append(("c10:shared-object:%s" % label, "tables %s and %s share a mutable object served as %s" % (a, b, label)))
+    dedup = []
+    for j in out:
+        if j[0] not in [d[0] for d in dedup]:
+            dedup.append(j)
+    return dedup
 
 
-def attribute(history, j, canon):
-    """When several assignments/mutations precede a leak, find by experiment which one
-    leaks: keep one at a time.  Returns the list of (bucket, message) that fail alone,
-    or [j] if no single one does (an interaction) or there is nothing to separate."""
-    if j is None or ":leak:" not in j[0]:
-        return [j] if j is not None else []
-    muts = [i for i, e in enumerate(history) if e[0] in ("assign", "mutate")]
-    if len(muts) < 2:
-        return [j]
+def judge(history, res, canon):
+    js = judge_all(history, res, canon)
+    return js[0] if js else None
+
+
+def attribute(history, js, canon):
+    """All findings of a history with leak causes settled by experiment: when several
+    assignments/mutations precede a leak, keep one at a time and see which one leaks alone,
+    so that a bucket never names an innocent mutation.  Returns a list of (bucket, message)."""
+    if js is None:
+        return []
+    if isinstance(js, tuple):
+        js = [js]
     out = []
-    hs = [[e for k, e in enumerate(history) if k == i or k not in muts] for i in muts]
-    for h, r in zip(hs, run(hs, 2)):
-        jj = judge(h, r, canon)
-        if jj is not None and jj not in out:
-            out.append(jj)
-    return out or [(j[0] + ":combined", j[1])]
+    muts = [i for i, e in enumerate(history) if e[0] in ("assign", "mutate")]
+    for j in js:
+        if ":leak:" not in j[0] or len(muts) < 2:
+            out.append(j)
+            continue
+        found = []
+        hs = [[e for k, e in enumerate(history) if k == i or k not in muts] for i in muts]
+        for h, r in zip(hs, run(hs, 2)):
+            for jj in judge_all(h, r, canon):
+                if ":leak:" in jj[0] and jj not in found:
+                    found.append(jj)
+        out.extend(found or [(j[0] + ":combined", j[1])])
+    dedup = []
+    for j in out:
+        if j[0] not in [d[0] for d in dedup]:
+            dedup.append(j)
+    return dedup
 
 
 def run(histories, par):
@@ -252,7 +274,7 @@ def classes(h):
 def sweep(ctx, histories, canon, par):
     for h, r in zip(histories, run(histories, par)):
         ctx.case(tuple(H.ev_key(e) for e in h), nontrivial=nontrivial(h), sample=[H.ev_key(e) for e in h], cls=classes(h))
-        for j in attribute(h, judge(h, r, canon), canon):
+        for j in attribute(h, judge_all(h, r, canon), canon):
             if not ctx.skip_bucket(j[0]):
                 ctx.violation(j[0], j[1], {"kind": "history", "events": shrink(h, j[0], canon)})
 
@@ -260,7 +282,7 @@ def sweep(ctx, histories, canon, par):
 def shrink(h, bucket, canon):
     def fails(s):
         s = fixup(s)
-        js = attribute(s, judge(s, run([s], 1)[0], canon), canon)
+        js = attribute(s, judge_all(s, run([s], 1)[0], canon), canon)
         return any(j[0] == bucket for j in js)
     return fixup(H.ddmin(h, fails))
 
@@ -312,7 +334,7 @@ def task_random(ctx, n, max_len):
     def fn(c, h):
         r = run([h], 1)[0]
         c.case(tuple(H.ev_key(e) for e in h), nontrivial=nontrivial(h), sample=[H.ev_key(e) for e in h], cls=classes(h))
-        for j in attribute(h, judge(h, r, canon), canon):
+        for j in attribute(h, judge_all(h, r, canon), canon):
             if not c.skip_bucket(j[0]):
                 raise Violation(j[0], j[1], {"kind": "history", "events": h})
     # histories cost a fork each: Hypothesis' shrinker is replaced by delta debugging on the event list
@@ -342,6 +364,6 @@ def replay(ctx, case):
     h = case["events"]
     r = run([h], 1)[0]
     ctx.case(tuple(H.ev_key(e) for e in h), nontrivial=nontrivial(h))
-    for j in attribute(h, judge(h, r, canon), canon):
+    for j in attribute(h, judge_all(h, r, canon), canon):
         if not ctx.skip_bucket(j[0]):
             raise Violation(j[0], j[1], case)
